@@ -128,6 +128,11 @@ def build_motions():
                 return f
             add("%s[%s]" % (nm, "none" if not has else ("Fx" if bw else "fx")), [nm], (code, 120, bw, has),
                 "char-find-repeat", rf(rev, has, bw), char=("x", bool(bw)) if has else None)
+    # ; and , on the search the SESSION recorded (vi_state.last_character_find as left by the f F t T keys
+    # typed before; nothing recorded = failure).  Their `failed` depends on the session: run_session
+    # tracks the last find typed and overrides this default (right for a session without any find).
+    add(";[last]", [";"], (32, 0, 0, 0), "char-find-repeat", lambda d, n: True, char=None)
+    add(",[last]", [","], (32, 1, 0, 0), "char-find-repeat", lambda d, n: True, char=None)
     add("h", ["h"], (18, 0, 0, 0), "left", lambda d, n: d.get_cursor_left_position(count=n) == 0)
     add("left", ["left"], (18, 0, 0, 0), "left", lambda d, n: d.get_cursor_left_position(count=n) == 0)
     add("j", ["j"], (19, 0, 0, 0), "line-down", lambda d, n: d.on_last_line, linewise=True, move=False)
@@ -284,7 +289,9 @@ def exc_status(e):
 
 
 def digits(n):
-    return list(str(n)) if n and n > 1 else []
+    """the keys of a typed count; None = no count typed.  A count that is exactly 1 IS typed (1dw, d1w:
+    the event._arg branch of the wrapper with n = 1 - 1d% goes to a line, 1dgg to line 1)"""
+    return list(str(n)) if n else []
 
 
 def run_keys(sess, text, cur, opname, mname, c1, c2):
@@ -307,10 +314,10 @@ def run_keys(sess, text, cur, opname, mname, c1, c2):
     obs = sess.observe(status)
     tobj = sess.captured
     alone = None
-    if m["move"] and not (mname in ("G", "0") and (c1 or 1) * (c2 or 1) > 1) and nav_fix(text, cur) == cur:
+    if m["move"] and not (mname in ("G", "0") and (c1 or c2)) and nav_fix(text, cur) == cur:
         sess.reset(text, cur, last_find)
         try:
-            with_watchdog(lambda: sess.feed(digits((c1 or 1) * (c2 or 1)) + m["keys"]), WATCHDOG[0])
+            with_watchdog(lambda: sess.feed((digits((c1 or 1) * (c2 or 1)) if (c1 or c2) else []) + m["keys"]), WATCHDOG[0])
             alone = sess.session.default_buffer.cursor_position
             if sess.session.default_buffer.text != text:
                 alone = -100
@@ -335,9 +342,13 @@ def run_session(sess, text, cur, cmds):
     status = 0
     last_reg = None
     last_tobj, last_failed = None, False
+    typed_find = None       # (character, backwards) of the last f F t T typed in this session, found or not
     for cmd in cmds:
         c1, opname, c2, end = cmd
         pre_t, pre_c = b.text, b.cursor_position
+        find_before = typed_find
+        if end in MOTIONS and MOTIONS[end]["group"] in ("char-find-forward", "char-find-backward"):
+            typed_find = (MOTIONS[end]["char"], MOTIONS[end]["group"] == "char-find-backward")
         ring0 = len(app.clipboard._ring)
         regs0 = dict(app.vi_state.named_registers)
         sess.captured = None
@@ -377,6 +388,17 @@ def run_session(sess, text, cur, cmds):
                     failed = bool(m["failed"](Document(pre_t, ce), n))
             except AssertionError:
                 failed = False
+            if end in (";[last]", ",[last]"):
+                # "; and , repeat the LAST f F t T command": fails when none was typed or when that
+                # search (in its own / the opposite direction) finds nothing from here
+                if find_before is None:
+                    failed = True
+                else:
+                    back = find_before[1] != (end[0] == ",")
+                    dd = Document(pre_t, ce)
+                    r_ = (dd.find_backwards(find_before[0], in_current_line=True, count=n) if back
+                          else dd.find(find_before[0], in_current_line=True, count=n))
+                    failed = r_ is None
             if m["tok"] is None:
                 failed = tobj is not None and tobj[0] == 0 and tobj[1] == 0
             if tobj is not None:
@@ -502,7 +524,7 @@ def oracle(text, cur, opname, m, n, obs, tobj, failed, alone):
     incl_nl = ty == 1 and 0 < hi <= len(text) and text[hi - 1] == "\n"
     if ty == 3:
         return None   # block objects are not produced in navigation mode; model correspondence only
-    if cls in ("delete", "change") and 0 <= lo and hi <= len(text) and ty in (0, 1, 2):
+    if cls in ("delete", "change", "yank") and 0 <= lo and hi <= len(text) and ty in (0, 1, 2):
         # exactly the span: text[a:e] with the exclusive-column-0 rule / whole lines
         if linewise:
             a = text.rfind("\n", 0, lo) + 1
@@ -517,7 +539,17 @@ def oracle(text, cur, opname, m, n, obs, tobj, failed, alone):
             if e_ < a:
                 e_ = a
             exp, et = text[a:e_], 0
-        if a == e_:
+        if cls == "yank":
+            # (text and cursor unchanged: checked above) the register holds exactly the spanned characters
+            if a == e_ or exp == "":
+                if data is not None and unS(data[0]) != "":
+                    return ("yank of an empty span (after the column-0 rule) wrote a register", "yank-span:" + grp)
+            elif data is None or unS(data[0]) != exp or data[1] != et:
+                if with_reg and obs["reg"] is None:
+                    return ("yank into a named register: the spanned text was not stored in the typed register", "named-register:" + grp)
+                return ("yank did not store exactly the characters of the span %d..%d%s with the right type" % (
+                    a, e_, " (whole lines)" if linewise else ""), "yank-span:" + grp)
+        elif a == e_:
             if t1 != text or (data is not None and unS(data[0]) != ""):
                 return ("the span is empty (after the column-0 rule), yet the operator changed the text or a register", "delete-span:" + grp)
         else:
@@ -655,6 +687,8 @@ UNI_OPS = ["d", "y", "c", '"qd', ">", "g?"]      # no case operators: their mode
 
 COUNTS_Q = [(None, None), (2, None), (None, 10), (2, 3)]
 COUNTS_T = [(None, None), (2, None), (None, 5), (2, 5), (101, None), (None, 10), (2, 10), (None, 101)]
+# a count that is exactly 1, typed: before the operator, after it, both, and next to a real count
+COUNTS_ONE = [(1, None), (None, 1), (1, 1), (1, 3), (2, 1)]
 
 
 def key_case(text, cur, opname, mname, c1, c2):
@@ -690,6 +724,17 @@ def gen_cases(chk):
                         if rng.random() < p_o:
                             cases.append(key_case(t, cur, on, mn, c1, c2))
                             dist["exhaustive_other_ops"] += 1
+    # a typed count of exactly 1 (event._arg set with n = 1): all short texts x motions, sampled
+    p_one = 0.1 if thorough else 0.02
+    for t in texts:
+        if len(t) > 3:
+            continue
+        for cur in nav_cursors(t):
+            for mn in mnames:
+                for (c1, c2) in COUNTS_ONE:
+                    if rng.random() < p_one:
+                        cases.append(key_case(t, cur, "d" if rng.random() < 0.5 else rng.choice(OP_ORDER), mn, c1, c2))
+                        dist["count_exactly_1"] = dist.get("count_exactly_1", 0) + 1
     # cursors after the last character of a non-empty line (temporary navigation mode, documents
     # set by program): every handler ends with the cursor fix-up, also a cancelled operator
     p_eol = 0.1 if thorough else 0.012
@@ -720,7 +765,7 @@ def gen_cases(chk):
         t = rand_text(rng, 24)
         curs = nav_cursors(t)
         cur = rng.choice(curs)
-        c1, c2 = rng.choice(COUNTS_T)
+        c1, c2 = rng.choice(COUNTS_T + COUNTS_ONE[:3])
         cases.append(key_case(t, cur, rng.choice(OP_ORDER), rng.choice(mnames), c1, c2))
         dist["random_key"] += 1
     # non-ASCII word characters: word motions and word objects on all short texts over UNI_ALPHA
@@ -751,16 +796,38 @@ def gen_cases(chk):
         r = rng.random()
         if r < 0.6:
             for _k in range(rng.choice([1, 1, 2])):
-                cmds.append((rng.choice([None, 3, 4, 10]), rng.choice(OP_ORDER), rng.choice([None, None, 2, 10]),
+                cmds.append((rng.choice([None, 3, 4, 10, 1]), rng.choice(OP_ORDER), rng.choice([None, None, 2, 10, 1]),
                              rng.choice(["esc", "esc", "f-esc"])))
         else:
             cmds.append((rng.choice([None, 2, 3]), rng.choice(plain_ops), rng.choice([None, None, 2]),
                          rng.choice(["l", "w", "h", "e", "$", "b", "j", "iw"])))
-        c1, c2 = rng.choice(COUNTS_T)
+        c1, c2 = rng.choice(COUNTS_T + COUNTS_ONE[:2])
         kc = key_case(t, cur, rng.choice(OP_ORDER), rng.choice(sess_motions), c1, c2)
         cmds.append((kc[5], kc[3], kc[6], kc[4]))
         cases.append(("S", t, cur, cmds))
         dist["sessions"] = dist.get("sessions", 0) + 1
+    # recorded character search (vi_state.last_character_find as session state): a find, a second find
+    # (of a character that may be absent; plain or under an operator), then operator + ; / ,
+    finds = [k for k, v in MOTIONS.items() if v["group"] in ("char-find-forward", "char-find-backward")]
+    step_ops = [None, None, "d", "y", "g~", ">", '"qy']
+    for _ in range(12000 if thorough else 1500):
+        r = rng.random()
+        if r < 0.4:
+            t = "".join(rng.choice(["x", "(", "a", "a", " "]) for _ in range(rng.choice([3, 4, 5, 7, 9])))
+        elif r < 0.7:
+            t = "".join(rng.choice(["x", "a", "b", " ", "\n"]) for _ in range(rng.choice([4, 6, 9, 12])))     # no '(' at all
+        else:
+            t = rand_text(rng, 20)
+        if not t:
+            continue
+        cur = rng.choice(nav_cursors(t))
+        cmds = [(None, rng.choice(step_ops), None, rng.choice(finds))]
+        if rng.random() < 0.8:
+            cmds.append((rng.choice([None, None, 2]), rng.choice(step_ops), None, rng.choice(finds)))
+        c1, c2 = rng.choice(COUNTS_Q + [(None, None)] * 3)
+        cmds.append((c1, rng.choice(OP_ORDER), c2, rng.choice([";[last]", ",[last]"])))
+        cases.append(("S", t, cur, cmds))
+        dist["recorded_find_sessions"] = dist.get("recorded_find_sessions", 0) + 1
     # object level: arbitrary TextObject(start, end, type), any cursor 0..len
     nobj = 40000 if thorough else 4000
     small = all_texts(3)
@@ -822,7 +889,7 @@ def alone_model_case(case, alone):
     """the motion typed alone as a model session + the implementation's canonical result"""
     _, text, cur, opname, mname, c1, c2 = case
     n = (c1 or 1) * (c2 or 1)
-    mc = [S(text), cur, enc_digits(n) + enc_motion(mname)]
+    mc = [S(text), cur, (enc_digits(n) if (c1 or c2) else []) + enc_motion(mname)]
     if alone < 0:
         return mc, [99, S(text), cur, [], [], 0, [], 0]
     return mc, [0, S(text), alone, [], [], 0, [], 0]
@@ -1089,7 +1156,7 @@ def main(tier):
             4 if thorough_(chk) else 3, ALPHA, len(MOTIONS), COUNTS_T if thorough_(chk) else COUNTS_Q,
             "100%" if thorough_(chk) else "10%", "3%" if thorough_(chk) else "n/a", "0.4%" if thorough_(chk) else "0.6%"))
     chk.assumptions += [
-        "a count of 1 typed explicitly (1dw) is not generated: counts are absent or > 1",
+        "a typed count of exactly 1 (1dw, d1w, 1d1w, 1d3w, 2d1w) is driven by a sampled stratum over all texts of length <= 3 and in the random / session strata, not exhaustively",
         "vi_mode() is true in Document.selection_ranges (every case runs under a Vi application)",
         "case operators: the theorems take an arbitrary string function; the correspondence uses ASCII text, where rot13/lower/upper/swapcase are the model's ASCII maps",
         "gq: str.splitlines(True) modelled for the newline character only; buffer.text_width = 0 (width 80)",
